@@ -2,6 +2,7 @@ mod ast;
 mod diff;
 mod enumerate;
 mod gen;
+mod heapmon;
 mod mutate;
 mod obs;
 mod print;
@@ -107,6 +108,28 @@ fn main() {
                 println!("replay of {} case {}: no violation", prop, idx);
             }
             std::process::exit(if n > 0 { 1 } else { 0 });
+        }
+        "debug-session" => {
+            // lines of a session from a file; `// cut after N instructions` sets a budget
+            obs::install_panic_hook();
+            let text = std::fs::read_to_string(&args[2]).unwrap();
+            let lines: Vec<props::c17::Line> = text
+                .lines()
+                .filter(|l| !l.trim().is_empty())
+                .map(|l| {
+                    if let Some(p) = l.find("// cut after ") {
+                        let n: u64 = l[p + 13..].split_whitespace().next().unwrap().parse().unwrap();
+                        props::c17::Line { text: l[..p].trim_end().to_string(), budget: Some(n) }
+                    } else {
+                        props::c17::Line { text: l.to_string(), budget: None }
+                    }
+                })
+                .collect();
+            let (o, ev) = props::c17::run_session_real(&lines, nederlang::verif::ShadowMode::Quarantine, true);
+            for (i, l) in o.iter().enumerate() {
+                println!("{:2} [{}] {} out={:?} stack={} frames={} count={}   <- {}", i + 1, l.stage, l.outcome.render(), l.output, l.stack_len, l.frames, l.count, lines[i].text);
+            }
+            println!("events: {:?}", ev);
         }
         "run-sub" => {
             // the sharded part only, statistics on stdout (used for the dbg / asan passes)
